@@ -1046,6 +1046,35 @@ def rule_c19_commands(prog: Program, col: Collector) -> None:
                               "saving under a new name overwrites an artefact of an earlier entry", rule="REG-V")
     if nsfx == 0:
         col.ok(sref.where(), "run.save.SAVERS", "no saver derives a file name from the run name with with_suffix()", rule="REG-V")
+    # ... and names that are different strings must not be the same PATH: every saver other than the JSON one joins a single component
+    # derived from the name (its separators encoded), never the raw name, onto its directory
+    for e in entries:
+        q = prog.resolve(e.module, e.value)
+        r = prog.find_func(q) if q else None
+        if r is None or r.qual == jq or len(r.positional_params()) < 2:
+            continue
+        rft = fterms(prog, r)
+        pathp, namep = ("param", r.positional_params()[0]), ("param", r.positional_params()[1])
+
+        def encoded(t) -> bool:
+            """The name with its path separators replaced: name.replace("/", ...) somewhere on the way (helpers are read through)."""
+            return any(s0[0] == "call" and s0[1][0] == "attr" and s0[1][2] == "replace" and s0[2] and s0[2][0] in (("const", "/"), ("global", "os.sep"), ("attr", ("global", "os"), "sep"))
+                       and has_subterm(s0[1][1], namep) for s0 in subterms(t))
+        joins = set()
+        for ev in rft.events:
+            for val in ev.data.values():
+                if isinstance(val, tuple):
+                    for s0 in subterms(val):
+                        if s0[0] == "bin" and s0[1] == "/" and has_subterm(s0[2], pathp) and has_subterm(s0[3], namep):
+                            joins.add(s0)
+        if not joins:
+            continue
+        raw = [j for j in joins if not encoded(j[3])]
+        col.check(not raw, r.where(), r.short,
+                  f"SAVERS[{e.key!r}] joins a single path component derived from the run name onto its directory (separators of the name encoded)"
+                  + (f": found the raw name in {short(raw[0], 60)}" if raw else ""), construct=f"plot-path-from-raw-name:{e.key}",
+                  necessity="run names that are different strings but the same path ('a' and './a', 'x/../a') are separate records of data.json whose plots share "
+                            "one file: saving the second run redraws the first run's plot and then fails with FileExistsError in the coalition plots", rule="REG-V")
     mk = [e for e in sft.calls("mkdir")]
     col.check(bool(mk), sref.where(), sref.short, "save() creates the model directory when missing",
               construct="save-mkdir", necessity="first save into a fresh directory must succeed")
